@@ -11,13 +11,13 @@ THEOREMS = [
     'Ndn.C16.cert_wire', 'Ndn.C16.cert_name', 'Ndn.C16.cert_signed_portion', 'Ndn.C16.parse_cert_roundtrip',
     'Ndn.C16.formatTime_length', 'Ndn.C16.formatTime_inj', 'Ndn.Gen.C16.schema_matches',
     'Ndn.C16.ord_ymd_roundtrip', 'Ndn.C16.addSeconds_spec', 'Ndn.C16.addYears_spec', 'Ndn.C16.toUtc_spec',
-    'Ndn.C16.fmtInstant_inj', 'Ndn.C16.fmt_domain', 'Ndn.C16.derive_instants', 'Ndn.C16.derive_zone_independent',
+    'Ndn.C16.fmtInstant_inj', 'Ndn.C16.fmtInstant_form', 'Ndn.C16.derive_instants', 'Ndn.C16.derive_zone_independent',
     'Ndn.C16.validity_encodes_requested_instants', 'Ndn.C16.validity_period_length', 'Ndn.C16.req_instants',
     'Ndn.C16.self_instants', 'Ndn.C16.issued_validity',
 ]
 PARTIAL = {}
 TRUSTED = [
-    'C16: the calendar is modelled (NdnModel/Calendar.lean transcribes CPython\'s _ymd2ord/_ord2ymd, datetime + timedelta(seconds=n), replace(year=...), astimezone(UTC) as wall-clock reading minus the offset the tzinfo reports for that reading and its fold, in whole seconds) and tied to CPython\'s datetime by the calendar stream of this run; an instant enters the model as (date.toordinal(), second of day, microsecond); expire_sec is an integer; strftime(\'%Y%m%dT%H%M%S\') is modelled as zero-padded decimal fields, which is what glibc prints for the years 1000..9999 only (validity periods reaching below 1000-01-01 = ordinal 364878 are answered `skip` by the model and not compared); the tzinfo of an aware start time is an arbitrary function from (wall-clock reading, fold) to an offset in the theorems; in the correspondence runs the model is handed the offset the tzinfo reports for the start reading and the one it reports for the wall-clock reading start + expire_sec (a two-valued zone function); offsets with a microsecond part (possible for hand-written tzinfo classes, not for zoneinfo) are outside the model',
+    'C16: the calendar is modelled (NdnModel/Calendar.lean transcribes CPython\'s _ymd2ord/_ord2ymd, datetime + timedelta(seconds=n), replace(year=...), astimezone(UTC) as wall-clock reading minus the offset the tzinfo reports for that reading and its fold, in whole seconds) and tied to CPython\'s datetime by the calendar stream of this run; an instant enters the model as (date.toordinal(), second of day, microsecond); expire_sec is an integer; the validity text (_fmt_time: \'%04d\' % year + strftime(\'%m%dT%H%M%S\')) is modelled as zero-padded decimal fields on the whole range 0001..9999; the tzinfo of an aware start time is an arbitrary function from (wall-clock reading, fold) to an offset in the theorems; in the correspondence runs the model is handed the offset the tzinfo reports for the start reading and the one it reports for the wall-clock reading start + expire_sec (a two-valued zone function); offsets with a microsecond part (possible for hand-written tzinfo classes, not for zoneinfo) are outside the model',
     'C16: the signer is abstract as in C01 (its output is recorded); verification uses the real pycryptodomex verifiers in the oracle',
 ]
 RULE = ('certificates produced by self_sign, sign_req and derive_cert for random key names (given as component list, tuple, '
@@ -27,7 +27,7 @@ RULE = ('certificates produced by self_sign, sign_req and derive_cert for random
         'memoryview), public keys in bytes / bytearray / memoryview, the signer object having issued 0..2 other certificates '
         'before, its private key given as DER or PEM (HMAC / Ed25519: bytes, bytearray, memoryview), its key locator as URI text, '
         'component list or encoded Name, EC P-224 issuers too, a sweep of every kind '
-        'of year (weekday of 1 Jan x leap) x 29 Dec..3 Jan as requested start, requested end, now, now+10d, now+20y, month '
+        'of year (weekday of 1 Jan x leap) x 29 Dec..3 Jan as requested start, requested end, now, now+10d, now+20y, validity periods in the first millennium (year 1, 999 -> 1000; the year has four digits), month '
         'ends, microseconds, UTC-aware starts, starts in fixed-offset zones (whole hours, 5:45, offsets with seconds), starts in zoneinfo zones whose offset changes (daylight saving in both directions incl. the repeated hour with fold=1, 30-minute DST, a skipped calendar day, local-mean-time offsets with seconds, far-future rule years) placed around every change of offset of the zone with durations reaching across it in both directions, a hand-written tzinfo whose offset depends on the day and on fold, a machine zone other than UTC, total certificate size swept across 253 and '
         '65536 for every signer, EC P-256/384/521, RSA-2048 and Ed25519 subject keys and issuer signers (plus HMAC and a synthetic signer '
         'sweeping reserved/real signature lengths across 253), validity start times at year / month / leap-day boundaries '
@@ -35,7 +35,7 @@ RULE = ('certificates produced by self_sign, sign_req and derive_cert for random
         'fold, offset seconds for that reading, offset for the reading start+expire_sec) + expire_sec and computes the calendar fields of the validity period itself, and the calendar '
         'errors (OverflowError past 9999-12-31, ValueError for 29 Feb + 20 years into a common year) are compared too. '
         'Calendar stream: ymd2ord / ord2ymd / datetime + timedelta(seconds=n) / astimezone(UTC) / replace(year+k) / '
-        'strftime of the Lean model against CPython\'s datetime in both directions (from fields and from ordinals) on '
+        'the validity text of the Lean model against CPython\'s datetime in both directions (from fields and from ordinals) on '
         'random instants, the 400/100/4/1-year cycle boundaries, first/last days of years, month ends, leap days, century '
         'years, invalid dates, sums landing on and beyond 0001-01-01 and 9999-12-31, |n| up to 10^15; date.fromordinal of every '
         'ordinal 1..3652059 in the thorough tier (six random blocks of 40000 days in the quick tier). '
@@ -93,7 +93,7 @@ FAST_ISSUERS = [['ed25519'], ['hmac'], ['digest', 0], ['ec256']]
 def _rand_time(rng):
     r = rng.random()
     if r < 0.25:
-        y = rng.choice([1000, 1900, 1999, 2000, 2024, 2038, 2100, 9998])
+        y = rng.choice([1, 5, 99, 100, 999, 1000, 1900, 1999, 2000, 2024, 2038, 2100, 9998])
         mo, d = rng.choice([(1, 1), (12, 31), (2, 28), (3, 1)])
         if _leap(y) and rng.random() < 0.5:
             mo, d = 2, 29
@@ -105,9 +105,10 @@ def _rand_time(rng):
         return [y, mo, d] + list(rng.choice(HMS))
     if r < 0.55:
         # the last days of a month
-        y, mo = rng.randint(1000, 9000), rng.randint(1, 12)
+        y, mo = rng.choice([rng.randint(1, 999), rng.randint(1000, 9000), rng.randint(1000, 9000)]), rng.randint(1, 12)
         return [y, mo, _mdays(y, mo) - rng.choice([0, 0, 1])] + list(rng.choice(HMS))
-    return [rng.randint(1000, 9000), rng.randint(1, 12), rng.randint(1, 28), rng.randint(0, 23), rng.randint(0, 59),
+    return [rng.choice([rng.randint(1, 999), rng.randint(1000, 9000), rng.randint(1000, 9000), rng.randint(1000, 9000)]),
+            rng.randint(1, 12), rng.randint(1, 28), rng.randint(0, 23), rng.randint(0, 59),
             rng.randint(0, 59)]
 
 
@@ -287,6 +288,8 @@ def _random_case(rng, tier):
             'seed': rng.getrandbits(32)}
     case.update(_extras(rng))
     case.update(_extras2(rng, issuer))
+    if start[0] < 2 and (case.get('tz') or case.get('tz_s') or case.get('zone')):
+        start[0] = 2          # 0001-01-01 expressed in a zone behind UTC is not a datetime the harness could hand over
     if case['kn_form'] in ('str', 'strlist', 'mixed') and any(c[:2] in ('32', '34', '36', '38', '3a') for c in key_name):
         # naming-convention components with a value that is not a number have no URI text (Name.to_str/from_str is
         # another property's business): hand those over as an encoded Name instead
@@ -463,9 +466,31 @@ def _dst_cases(rng, tier):
         yield _base(rng, fn='derive', start=start, expire=expire, wall_zone=offs, fold=fold, tz=None, issuer=rng.choice(FAST_ISSUERS))
 
 
+def _low_years(rng, tier):
+    """validity periods in the first millennium, starting / ending on and next to 0001-01-01 and crossing 999 -> 1000:
+    the year is written with four digits"""
+    fast = lambda: rng.choice(FAST_ISSUERS)      # noqa: E731
+    for start, tz, expire in (([5, 1, 2, 3, 4, 5], None, 1), ([1, 1, 1, 0, 0, 0], None, 0), ([1, 1, 1, 0, 0, 0], 0, 86399),
+                              ([1, 1, 1, 0, 0, 1], None, -1), ([1, 1, 1, 0, 0, 0], None, -1), ([1, 1, 2, 0, 0, 0], 5, 10 ** 9),
+                              ([999, 12, 31, 23, 0, 0], None, 7200), ([999, 12, 31, 23, 59, 59], 0, 1), ([999, 12, 31, 23, 59, 59], -8, 0),
+                              ([1000, 1, 1, 0, 0, 0], 5.75, -1), ([1000, 1, 1, 0, 0, 0], None, -31536000), ([9, 12, 31, 23, 59, 59], 9, 1),
+                              ([99, 12, 31, 23, 59, 59], None, 1), ([100, 2, 28, 12, 0, 0], -3.5, 86400), ([400, 2, 29, 0, 0, 0], 14, 86400),
+                              ([10, 10, 10, 10, 10, 10], None, 31208630400), ([500, 6, 1, 0, 0, 0], None, 299_000_000_000)):
+        yield _base(rng, fn='derive', start=start, tz=tz, expire=expire, issuer=fast(), us=rng.choice([0, 999999]))
+    for zone, start, expire in (('America/New_York', [999, 12, 31, 23, 30, 0], 3600), ('Asia/Kathmandu', [2, 1, 1, 0, 0, 0], 59),
+                                ('Europe/Berlin', [1000, 1, 1, 0, 0, 0], -1), ('Pacific/Kiritimati', [77, 7, 7, 7, 7, 7], 10 ** 7)):
+        yield _base(rng, fn='derive', start=start, zone=zone, tz=None, expire=expire, issuer=fast())
+    for now in ([979, 12, 31, 23, 59, 59], [980, 1, 1, 0, 0, 0], [980, 2, 29, 0, 0, 0], [1, 1, 1, 0, 0, 0], [80, 2, 29, 12, 0, 0],
+                [84, 2, 29, 12, 0, 0], [999, 12, 31, 23, 59, 59]):
+        yield _base(rng, fn='self', now=now, issuer=fast(), us=rng.choice([0, 999999]))
+    for now in ([999, 12, 21, 23, 59, 59], [999, 12, 22, 0, 0, 0], [999, 12, 31, 23, 59, 59], [1, 1, 1, 0, 0, 0], [9, 12, 25, 6, 0, 0]):
+        yield _base(rng, fn='req', now=now, issuer=fast(), us=rng.choice([0, 1]))
+
+
 def cases(rng, tier):
     yield from _dst_cases(rng, tier)
     yield from _keyish(rng, tier)
+    yield from _low_years(rng, tier)
     yield from _calendar_edges(rng)
     yield from _sweep(rng, tier)
     yield from _sizes(rng, tier)
@@ -648,7 +673,8 @@ def _run_cal(case):
         if op == 'addyears':
             return _cal_show(t.replace(year=t.year + case['k']))
         if op == 'fmt':
-            return 'ok ' + t.strftime('%Y%m%dT%H%M%S').encode().hex() if t.year >= 1000 else 'skip year<1000'
+            # the 15-octet YYYYMMDDThhmmss (strftime('%Y') alone does not pad years below 1000)
+            return 'ok ' + ('%04d' % t.year + t.strftime('%m%dT%H%M%S')).encode().hex()
         raise KeyError(op)
     except (ValueError, OverflowError) as e:
         return 'err ' + type(e).__name__
@@ -837,9 +863,6 @@ def model_line(case, impl):
 def model_obs(answer, case, impl):
     if case['fn'] == 'cal':
         return {'cal': answer}
-    if answer.startswith('skip'):
-        # a validity period reaching below the year 1000: outside the domain of the text model (see TRUSTED)
-        return impl_obs(impl)
     if answer.startswith('err'):
         cls = answer.split()[1]
         return {'made': ['calendar' if cls in ('ValueError', 'OverflowError') else 'err', cls]}
@@ -865,7 +888,7 @@ def oracle(case, impl):
         # ValueError / OverflowError are the calendar's answers (29 Feb + 20 years, beyond year 9999 in the zone the
         # arithmetic is done in): with every requested instant at least a year inside 1..9999 they are not
         t0, t1 = _requested(case)
-        if t0 is not None and 1001 <= t0[0] <= 9998 and 1001 <= t1[0] <= 9998 \
+        if t0 is not None and 2 <= t0[0] <= 9998 and 2 <= t1[0] <= 9998 \
                 and not (case['fn'] == 'self' and case['now'][1:3] == [2, 29]):
             return f"issuing a certificate raised {impl['made'][1]} although the requested validity period is representable"
         return None
